@@ -710,7 +710,7 @@ def owns_signature(ctx):
 
 
 # --------------------------------------------------------------------------- every algebra owns its operator dictionaries
-@rule("C09.own-operator-dicts", props=["C09", "C02", "C13", "C14", "C03", "C04", "C05", "C06", "C07"], min_instances=3, mutants=[
+@rule("C09.own-operator-dicts", props=["C09", "C02", "C13", "C14", "C03", "C04", "C05", "C06", "C07", "C01"], min_instances=3, mutants=[
     ("a registry handed to the constructor is kept", ("algebra", "        self.registry = {f.name: f.type(name=f.name, algebra=self, **f.metadata)\n                         for f in fields(self) if 'codegen' in f.metadata}",
                                                         "        if not self.registry:\n            self.registry = {f.name: f.type(name=f.name, algebra=self, **f.metadata)\n                             for f in fields(self) if 'codegen' in f.metadata}")),
     ("operator dictionaries are bound to the class, not the instance", ("algebra", "            setattr(self, name, operator_dict)", "            setattr(type(self), name, operator_dict)")),
@@ -837,7 +837,8 @@ def module_state_writes(repo):
     return out
 
 
-@rule("C09.module-state", props=["C09", "C18", "C14"], min_instances=1, mutants=[
+@rule("C09.module-state", props=["C09", "C18", "C14", "C05", "C08", "C03"], min_instances=2, mutants=[
+    ("normalized() silences numpy's floating point errors for the whole process", ("multivector", "        \"\"\" Normalized version of this multivector. \"\"\"\n        return self / self.norm()", "        \"\"\" Normalized version of this multivector. \"\"\"\n        import numpy as np\n        np.seterr(divide='ignore', invalid='ignore')\n        return self / self.norm()")),
     ("matrix basis shared between algebra instances by (p, q, r)", [
         ("algebra", "operation_field = partial(field, default_factory=dict, init=False, repr=False, compare=False)", "operation_field = partial(field, default_factory=dict, init=False, repr=False, compare=False)\n_matrix_basis_cache = {}"),
         ("algebra", "        return matrix_rep(self.p, self.q, self.r, signature=self.signature, blades=blades)", "        pqr = (self.p, self.q, self.r)\n        if pqr not in _matrix_basis_cache:\n            _matrix_basis_cache[pqr] = matrix_rep(*pqr, signature=self.signature, blades=blades)\n        return _matrix_basis_cache[pqr]")]),
@@ -853,6 +854,53 @@ def module_state(ctx):
                       f"an operation returns depends on which algebras were used before", node, module=mname)
     if not hits:
         ctx.ok("package#no-module-state", None, module="algebra", modules=len(repo.modules))
+    # ... and no function of the package changes a process-wide setting of the interpreter or of numpy: how the user's own
+    # later operations behave (raise / warn / return nan, print, recurse) would depend on which kingdon calls ran before
+    setters = process_setting_writes(repo)
+    for mname, qual, node, what in setters:
+        ctx.violation(f"{qual}#process-setting:{what}", f"{qual} calls {what} ({un(node)[:70]}) without restoring it: a setting of the whole "
+                      f"process is changed for good, so the outcome of later operations (a division by zero that raised now returns nan, "
+                      f"warnings that vanish, ...) depends on which operations ran before", node, module=mname)
+    if not setters:
+        ctx.ok("package#no-process-settings", None, module="algebra", modules=len(repo.modules))
+
+
+PROCESS_SETTERS = {"seterr", "seterrcall", "set_printoptions", "setbufsize", "simplefilter", "filterwarnings", "resetwarnings",
+                   "setrecursionlimit", "setswitchinterval", "seed", "setlocale", "setcontext", "set_string_function", "putenv", "chdir",
+                   "init_printing", "setprofile", "settrace"}
+SCOPED_CONTEXTS = {"errstate", "catch_warnings", "localcontext", "printoptions"}
+
+
+def process_setting_writes(repo):
+    """(module, function, call node, name) for calls of process-wide setters outside a `with <scoped context>` block."""
+    out = []
+    for mname, qual, fn in repo.all_functions():
+        for n in ast.walk(fn):
+            if not isinstance(n, ast.Call):
+                continue
+            name = (call_name(n) or "").split(".")[-1]
+            if name not in PROCESS_SETTERS:
+                continue
+            base = (call_name(n) or "")
+            if "." not in base and name == "seed":
+                continue                                   # a local helper of that name, not random.seed / np.random.seed
+            scoped = False
+            p = getattr(n, "_parent", None)
+            while p is not None and p is not fn:
+                if isinstance(p, ast.With) and any(isinstance(i.context_expr, ast.Call) and (call_name(i.context_expr) or "").split(".")[-1] in SCOPED_CONTEXTS
+                                                   for i in p.items):
+                    scoped = True
+                p = getattr(p, "_parent", None)
+            # a saved-and-restored setting: old = np.seterr(...) ... finally: np.seterr(**old)
+            restored = any(isinstance(t, ast.Try) and t.finalbody and any(isinstance(c, ast.Call) and (call_name(c) or "").split(".")[-1] == name
+                                                                             for f_ in t.finalbody for c in ast.walk(f_)) for t in ast.walk(fn))
+            if not scoped and not restored:
+                out.append((mname, qual, n, base or name))
+        for n in ast.walk(fn):
+            # os.environ[...] = ..., os.environ.update(...)
+            if isinstance(n, ast.Subscript) and isinstance(n.ctx, (ast.Store, ast.Del)) and un(n.value).endswith("environ"):
+                out.append((mname, qual, n, "os.environ[...]"))
+    return out
 
 
 @fixture_for("C09.module-state")
